@@ -1018,8 +1018,10 @@ func reshape(m map[string]interface{}, variant int) {
 	}
 }
 
-// consistent is the oracle "the index and the stored files agree": for every indexed field
-// the multiset of indexed values equals the multiset of that field over All().
+// consistent is the oracle "the index and the stored files agree": every stored object must be
+// found, under every indexed field, by an equality search on the value its file holds (and the
+// number of index entries must be the number of objects).  Answers "true" or "false h1,h2,…"
+// with the handles of the objects whose index entries are stale.
 func (e *Exec) consistent() string {
 	sch, err := e.db.Schema(&T{})
 	if err != nil {
@@ -1029,6 +1031,8 @@ func (e *Exec) consistent() string {
 	if err != nil {
 		return "false"
 	}
+	bad := map[int]bool{}
+	sizeOK := true
 	for _, fd := range sch.Indexed() {
 		li := leafIndex(fd.Path)
 		if li < 0 {
@@ -1039,22 +1043,84 @@ func (e *Exec) consistent() string {
 			return "false"
 		}
 		inner := strings.TrimSuffix(strings.TrimPrefix(res, "["), "] ok")
-		got := []string{}
+		n := 0
 		if inner != "" {
-			got = strings.Split(inner, " ")
+			n = len(strings.Split(inner, " "))
 		}
-		want := []string{}
+		if n != len(objs) {
+			sizeOK = false
+		}
 		for _, o := range objs {
-			_, vals := flatten(o.(*T))
-			want = append(want, vals[li])
-		}
-		sort.Strings(got)
-		sort.Strings(want)
-		if strings.Join(got, " ") != strings.Join(want, " ") {
-			return "false"
+			t := o.(*T)
+			var v interface{}
+			switch fd.Path {
+			case "A":
+				v = t.A
+			case "B":
+				v = t.B
+			case "F":
+				v = t.F
+			case "G":
+				v = t.G
+			case "S":
+				v = t.S
+			case "Tm":
+				v = t.Tm
+			case "I8":
+				v = t.I8
+			case "U16":
+				v = t.U16
+			case "Emb.Y":
+				v = t.Emb.Y
+			case "Emb.Z":
+				v = t.Emb.Z
+			case "P.X":
+				v = uint64(0)
+				if t.P != nil {
+					v = t.P.X
+				}
+			case "P.W":
+				v = ""
+				if t.P != nil {
+					v = t.P.W
+				}
+			case "P.Q.D":
+				v = int16(0)
+				if t.P != nil && t.P.Q != nil {
+					v = t.P.Q.D
+				}
+			default:
+				continue
+			}
+			found := false
+			if it, err := e.db.Search(&T{}, fd.Path, "=", v).Iterator(); err == nil {
+				_ = it
+			}
+			if res, err := e.db.Search(&T{}, fd.Path, "=", v).Collect(); err == nil {
+				for _, r := range res {
+					if r.UUID() == t.UUID() {
+						found = true
+					}
+				}
+			}
+			if !found {
+				bad[e.handle(t.UUID())] = true
+			}
 		}
 	}
-	return "true"
+	if len(bad) == 0 && sizeOK {
+		return "true"
+	}
+	hs := []int{}
+	for h := range bad {
+		hs = append(hs, h)
+	}
+	sort.Ints(hs)
+	parts := []string{}
+	for _, h := range hs {
+		parts = append(parts, fmt.Sprintf("%d", h))
+	}
+	return strings.TrimSpace("false " + strings.Join(parts, ","))
 }
 
 // snapshot is everything observable through the read paths, as one canonical string.
